@@ -95,8 +95,16 @@ def r2(tree, rep):
         from ..dataflow import call_arg
         names = [f.lstrip("_") for f in Program(tree).cls("TrafficTimer").attr_fields]
         wired = [dotted(call_arg(c, i, nm)) if call_arg(c, i, nm) is not None else None for i, nm in enumerate(names[:2])]
-        rep.check("C16.R2", "the timer is wired to _signal_reconnect and _send_ping_reset_timer", wired == ["self._signal_reconnect", "self._send_ping_reset_timer"],
-                  site(c, MGR), key="C16.R2:timer-wiring")
+        # the timer object outlives the connection it was created for (it is made once and told about every later connection), so its
+        # callbacks must be the Manager's own methods, which look at the CURRENT connection / timer when they are called
+        mm_ = tree.methods(MGR, "Manager")
+        own_method = lambda w: isinstance(w, str) and w.startswith("self.") and w.count(".") == 1 and w.split(".")[1] in mm_
+        reconnect_method = wired[0].split(".")[1] if own_method(wired[0]) else None
+        rep.check("C16.R2", "the timer (created once, reused for every later connection) is wired to methods of the Manager: %s" % wired,
+                  own_method(wired[0]) and wired[1] == "self._send_ping_reset_timer", site(c, MGR), key="C16.R2:timer-wiring",
+                  what="the TrafficTimer is created once and kept for every later connection, but its callbacks are %s: a callback bound to "
+                       "one connection object (or anything but a Manager method) keeps acting on the FIRST connection - a silent peer on a "
+                       "later connection is never dropped" % wired)
     cl = tree.func(MGR, "Manager", "connector_connection_lost")
     g = build(cl)
     lc = g.call_nodes(lambda c: dotted(c.func) == "self._traffic.lost_connection")
@@ -119,7 +127,7 @@ def r2(tree, rep):
             and g.must_pass(clr, start=g.branch_targets(tt[0], 'T'), to=[g.exit], explicit_only=True) and not g.precedes(cn, clr)
         rep.check("C16.R2", "Manager.%s cancels a pending interval timer and clears it" % name, ok, site(fn, MGR), key="C16.R2:%s:timer" % name,
                   what="an interval timer of the old connection survives %s and is later counted against the next connection" % name)
-    sr = tree.func(MGR, "Manager", "_signal_reconnect")
+    sr = tree.func(MGR, "Manager", (reconnect_method if mk and reconnect_method else "_signal_reconnect"))
     g = build(sr, split=True)
     dc = g.call_nodes(lambda c: dotted(c.func) == "self._connection.disconnect")
     connected = truthy_atom(lambda e: is_self_attr(e, "_connection"))
@@ -277,6 +285,9 @@ def run(tree, rep, tier):
     r2(tree, rep)
     r3(tree, rep)
     r4(tree, rep, tier)
+    from ..tablerules import application_outputs_last
+    application_outputs_last(rep, "C16.R5", prog.machine("Manager"),
+                             "the Leader has dropped the connection but never sends RECONNECT / never starts the next generation", min_rows=6)
 
 
 MUTANTS = [
@@ -310,3 +321,8 @@ REWRITES.append(Rewrite("pong-credited-within-two-intervals", MGR, "        def 
 MUTANTS.append(Mutant("signal-needs-timer", MGR, "        if self._connection:\n            self._connection.disconnect()\n\n    def _send_ping_reset_timer",
                       "        if self._connection and self._timer is not None:\n            self._connection.disconnect()\n\n    def _send_ping_reset_timer", "C16.R4",
                       "when the reconnect signal fires the timer has just expired (_timer is None): the silent connection is never dropped"))
+MUTANTS.append(Mutant("status-before-reconnect", MGR, "                   outputs=[send_reconnect, send_status_dilation_generation, send_status_reconnecting])",
+                      "                   outputs=[send_status_reconnecting, send_reconnect, send_status_dilation_generation])", "C16.R5",
+                      "a status callback that raises on ReconnectingPeer leaves the Leader in FLUSHING without RECONNECT ever sent (seed C16-11)"))
+MUTANTS.append(Mutant("timer-bound-to-first-connection", MGR, "                self._traffic = TrafficTimer(self._signal_reconnect, self._send_ping_reset_timer)",
+                      "                self._traffic = TrafficTimer(c.disconnect, self._send_ping_reset_timer)", "C16.R2", "seed C16-12"))
